@@ -56,6 +56,60 @@ def P14 (i : Id) (ans : SendRes) (e : Int) (hard : Option Int) : ClientPrims M14
   onWrite m := { m with st := (callback m.st i none).1 }
   onClosed m := { m with st := (callback m.st i none).1 }
 
+/-! ### Poll::set / remove, the timer loop, the closing loop -/
+
+structure MPoll where
+  st : St
+  ctl : List (Nat × NBits) := []      -- the epoll_ctl calls made (op, mask)
+
+/-- the poll tables of the model as cells of socket `i` -/
+def PPoll (i : Id) : PollPrims MPoll where
+  sockFind m := (lookup m.st.sockets i).isSome
+  sockEvents m := (lookup m.st.sockets i).getD {}
+  setSockEvents m f := { m with st := { m.st with sockets := setId m.st.sockets i f } }
+  sockFd _ := 0
+  sockAppend m := { m with st := { m.st with sockets := m.st.sockets ++ [(i, {})] } }
+  sockRemove m := { m with st := { m.st with sockets := eraseId m.st.sockets i } }
+  selFind m := (lookup m.st.selected i).isSome
+  selEvents m := (lookup m.st.selected i).getD {}
+  setSelEvents m f := { m with st := { m.st with selected := setId m.st.selected i f } }
+  selRemove m := { m with st := { m.st with selected := eraseId m.st.selected i } }
+  epollCtl m op mask := { m with ctl := m.ctl ++ [(op, mask)] }
+
+structure MTimer where
+  st : St
+  cur : Option Id := none             -- the `TimerImpl*` popped from the queue (none = the default timer)
+
+def curTimer (m : MTimer) : Option TimerS := m.cur.bind m.st.timers
+
+def PTimer : TimerPrims MTimer where
+  queueFrontKey m := match m.st.queue with | (k, _) :: _ => k | [] => 0
+  queueFront m := { m with cur := match m.st.queue with | (_, v) :: _ => v | [] => none }
+  curIsUser m := m.cur.isSome
+  queueRemoveFront m := { m with st := { m.st with queue := m.st.queue.tail } }
+  timerExec m := match curTimer m with | some ti => ti.exec | none => 0
+  setTimerExec m v :=
+    match m.cur, curTimer m with
+    | some t, some ti => { m with st := { m.st with timers := upd m.st.timers t (some { ti with exec := v }) } }
+    | _, _ => m
+  timerInterval m := match curTimer m with | some ti => ti.interval | none => 0
+  queueInsertCur m k := { m with st := { m.st with queue := qInsert m.st.queue k m.cur } }
+  queueInsertDefault m k := { m with st := { m.st with queue := qInsert m.st.queue k none } }
+  onActivated m := match m.cur with | some t => { m with st := (callback m.st t none).1 } | none => m
+
+structure MClosing where
+  st : St
+  cur : Id := 0                       -- the client popped from `_closingClients`
+
+def PClosing : ClosingPrims MClosing where
+  closingIsEmpty m := m.st.closing.isEmpty
+  closingFront m := { m with cur := m.st.closing.headD 0 }
+  closingRemoveFront m := { m with st := { m.st with closing := m.st.closing.tail } }
+  hasCallback m := match m.st.clients m.cur with | some c => c.hasCb | none => false
+  removedFlag m := match m.st.clients m.cur with | some c => c.removed | none => false
+  onClosed m := { m with st := (callback m.st m.cur none).1 }
+  deleteClient m := { m with st := deleteClient m.st m.cur }
+
 /-- the system-call machine of `Socket::send` / `Socket::recv`: one cell `errno`; the kernel answers `(result, errno)` -/
 structure SysM where
   errno : Int
